@@ -48,11 +48,11 @@ type Plan struct {
 	Mode         string // free | noise | depth
 	Seed         uint64
 	Procs        int
-	Flusher      bool          // Store.Start with SyncInterval
+	Flusher      bool // Store.Start with SyncInterval
 	SyncInterval time.Duration
-	FlushLoop    bool // explicit goroutine calling Flush
-	GCPrimary    bool // harness-driven primary GC loop (one goroutine)
-	GCIndex      bool // harness-driven index GC loop (one goroutine)
+	FlushLoop    bool          // explicit goroutine calling Flush
+	GCPrimary    bool          // harness-driven primary GC loop (one goroutine)
+	GCIndex      bool          // harness-driven index GC loop (one goroutine)
 	GCBackground time.Duration // >0: background collectors with this interval instead
 	GCTimeLimit  time.Duration
 	LowUse       []int
@@ -77,12 +77,12 @@ type Rec struct {
 }
 
 type Outcome struct {
-	Recs       []Rec
-	Events     []hookrt.Event
-	Roles      map[int64]string
-	FlushCalls int64
+	Recs                      []Rec
+	Events                    []hookrt.Event
+	Roles                     map[int64]string
+	FlushCalls                int64
 	GCPrimCycles, GCIdxCycles int64
-	Store      *store.Store
+	Store                     *store.Store
 }
 
 func errClass(err error) string {
